@@ -156,6 +156,13 @@ func check(it *proto.Item, r *proto.Result) []proto.Issue {
 	if is := ipidOverlap(r.Net); is != nil {
 		out = append(out, *is)
 	}
+	// the kernel hands concurrent runs disjoint source ports only while each run keeps its port reserved
+	for _, s := range r.Net.Sinks {
+		if len(s.PortNotHeld) > 0 {
+			out = append(out, proto.Issue{Key: "flow-identifier-not-reserved", Detail: fmt.Sprintf("a run sent probes from source ports no socket owned at that moment (proto:port %v): a concurrent run can be handed the same flow", s.PortNotHeld)})
+			break
+		}
+	}
 	return out
 }
 
